@@ -48,6 +48,15 @@ Theorem C39_gcounter_delta_wrap_refuted : ∃ ops,
   joinl cmax ∅ (g_state <$> r.2) ≠ cmax ∅ (g_state r.1).
 Proof. exact g_delta_wrap_refuted. Qed.
 
+(* PNCounter deltas: same statement for both halves. *)
+Theorem C39_pncounter_delta_partial : ∀ ops (bi bd : gmap N N) (ds' : list pncounter),
+  p_nowrap p_new (ops ++ [PShip]) →
+  let r := p_run p_new (ops ++ [PShip]) [] in
+  (∀ d, d ∈ ds' ↔ d ∈ r.2) →
+  joinl cmax bi ((λ d, g_state (p_inc d)) <$> ds') = cmax bi (g_state (p_inc r.1)) ∧
+  joinl cmax bd ((λ d, g_state (p_dec d)) <$> ds') = cmax bd (g_state (p_dec r.1)).
+Proof. exact p_delta_converges. Qed.
+
 (* ORSet, full-state shipping: converges (reachable states are well formed). *)
 Theorem C39_orset_full_state_partial : ∀ (x : orset) (l1 l2 : list orset),
   Forall s_reach l1 → Forall s_reach l2 → (∀ y, y ∈ l1 ↔ y ∈ l2) →
@@ -126,3 +135,4 @@ Print Assumptions C39_delta_is_full_state.
 Print Assumptions C39_mvregister_converges.
 Print Assumptions C39_lww_converges.
 Print Assumptions C39_ormap_order_refuted.
+Print Assumptions C39_pncounter_delta_partial.
